@@ -1141,6 +1141,8 @@ def analyze_pairs(kw, expected, pairs):
 class C19(Prop):
     id = "C19"
     props_file = "Props/C19.v"
+    # redundant tie (core.gen_tie): these functions, translated from the source on every run, equal the hand model for all inputs
+    gen_tie_theorems = ['GenTie_StatusRate___init__', 'GenTie___get_rate', 'GenTie_rate', 'GenTie_GroundTruthStatus___init__', 'GenTie_add_status', 'GenTie_add_status_outside', 'GenTie_get_status_rates', 'GenTie_get_scene_rates', 'GenTie_get_area_idx', 'GenTie_get_area_idx_outside']
     design_ref = "DESIGN.md section 4, C19; section 5, F11"
     technique = ("Rocq proof (list-structural induction over frames and scenes; fold invariants for get_object_status; case analysis over the "
                  "comparisons of get_area_idx) about a Gallina model of the analyzer's table and summaries; in-Coq correspondence against the real "
